@@ -2,6 +2,7 @@
 // made drops (C06), path MTU (C20).
 #include "core.hpp"
 #include "net.hpp"
+#include "export.hpp"
 #include "models/queue_model.hpp"
 #include "models/pcap_reader.hpp"
 #include <sys/stat.h>
@@ -854,6 +855,7 @@ struct Tcp
 		if (c20 || c19) udp_part();
 
 		ctx.sim_ns = now_ns();
+		export_queues(net);
 		// teardown: objects before their contexts, contexts before the simulation
 		for (int c = 0; c < nconn; ++c)
 		{
